@@ -5,6 +5,7 @@
 //! decoder's own tables mirror it; no decoder code is called.
 pub mod container;
 pub mod entropy;
+pub mod features;
 pub mod icc;
 pub mod vardct;
 
@@ -194,6 +195,10 @@ pub struct FrameSpec {
     /// `Some`: the colour channels are VarDCT-coded (extra channels stay Modular)
     #[serde(default)]
     pub vardct: Option<vardct::VarDctSpec>,
+    #[serde(default)]
+    pub patches: Option<features::PatchSpec>,
+    #[serde(default)]
+    pub splines: Option<features::SplineSpec>,
 }
 
 #[derive(Clone, Debug, Serialize, Deserialize)]
@@ -745,6 +750,12 @@ impl Program {
         if f.noise.is_some() {
             flags |= 1;
         }
+        if f.patches.is_some() {
+            flags |= 2;
+        }
+        if f.splines.is_some() {
+            flags |= 0x10;
+        }
         if f.vardct.as_ref().map(|v| v.skip_adaptive_lf_smoothing).unwrap_or(false) {
             flags |= 0x80;
         }
@@ -989,6 +1000,12 @@ impl Program {
 
         // --- LfGlobal
         let mut lf_global = BitWriter::new();
+        if let Some(p) = &f.patches {
+            p.write(&mut lf_global, self);
+        }
+        if let Some(sp) = &f.splines {
+            sp.write(&mut lf_global);
+        }
         if let Some(lut) = &f.noise {
             for v in lut {
                 lf_global.w(*v as u64, 10);
@@ -1146,7 +1163,7 @@ impl Program {
 
     /// Rebuilds derived tables (prefix-code words) after deserialisation.
     pub fn rebuild(&mut self) {
-        for f in &mut self.frames {
+        for f in self.frames.iter_mut().chain(self.preview.iter_mut().map(|b| &mut **b)) {
             for ma in f.modular.global.iter_mut().chain(std::iter::once(&mut f.modular.local)) {
                 ma.tree_coder.rebuild();
                 ma.coder.rebuild();
